@@ -2,15 +2,19 @@
    Print Assumptions; refutation witnesses are closed by vm_compute. W is the window size
    (core.NumBlocksPerFilter = 8192 in juno; the witnesses use W = 4). *)
 From Coq Require Import List NArith Bool.
-From V Require Import C05.Model C05.Proofs_A C05.Proofs_B C05.Proofs_C C05.Proofs_D.
+From V Require Import C05.Model C05.Proofs_A C05.Proofs_B C05.Proofs_C C05.Proofs_D C05.Proofs_E.
 Import ListNotations.
 Open Scope N_scope.
 
 (* Crash right after ANY number k of committed batches of ANY operation sequence: the surviving disk
    is consistent (head fully present or fully absent across all index families, nothing above it,
-   state tries = head state, persisted windows below the head) — provided no Revert removes the last
-   block of an already persisted window, no Revert lands on a pruned block, and Prune keeps the head
-   (ops_ok). The first proviso is NOT decorative: see C05_crash_refuted. *)
+   state tries = head state, persisted windows below the head) — provided (ops_ok) Prune keeps the
+   head, no Revert lands on a pruned block, and a Revert of the LAST block of a persisted window
+   happens with the in-memory filter in sync with the head (mem_sync). Since /repo 5440575 the revert
+   batch deletes the window it re-enters, so reverts across a window end are covered
+   (C05_crash_window_revert); before it the clause had to exclude them altogether. The mem_sync
+   clause is discharged for restart-free histories (C05_crash_restart_free, via C05_sync_preserved);
+   that it holds after every Restart (reinit is in sync) is evaluated on every run but not proved. *)
 Theorem C05_crash : forall W ops k st, 0 < W ->
   consistent W (fst st) = true -> rf_aligned W (snd st) = true -> ops_ok W ops st = true ->
   consistent W (fst (exec_crash W ops k st)) = true.
@@ -36,6 +40,21 @@ Theorem C05_crash_atomic : forall W ops k st, (forall e, ~ In (Prune e) ops) ->
   exists n, fst (exec_crash W ops k st) = fst (run W (firstn n ops) st).
 Proof. exact crash_atomic. Qed.
 Print Assumptions C05_crash_atomic.
+
+(* The in-memory filter stays in sync with the head through every operation other than Restart ... *)
+Theorem C05_sync_preserved : forall W st o, 0 < W -> mem_sync W (fst st) (snd st) = true ->
+  is_restart o = false -> mem_sync W (fst (step W st o)) (snd (step W st o)) = true.
+Proof. exact sync_step. Qed.
+Print Assumptions C05_sync_preserved.
+
+(* ... hence for restart-free histories only the environmental hypotheses remain (Prune keeps the head,
+   no Revert onto a pruned block): reverts across window ends included. *)
+Theorem C05_crash_restart_free : forall W ops k st, 0 < W ->
+  consistent W (fst st) = true -> mem_sync W (fst st) (snd st) = true ->
+  (forall o, In o ops -> is_restart o = false) -> ops_env W ops st = true ->
+  consistent W (fst (exec_crash W ops k st)) = true.
+Proof. exact crash_consistent_restart_free. Qed.
+Print Assumptions C05_crash_restart_free.
 
 (* A failed commit leaves the disk unchanged (single-batch operations) / exactly at the batches
    committed before it (prune). *)
@@ -84,15 +103,29 @@ Example C05_fault_store_boundary_refuted :
   stores 4 (fst r) (reinit 4 (fst r)) (blk 3 103 102 [3]) = true.
 Proof. vm_compute. repeat split; reflexivity. Qed.
 
-(* C05_crash without the window proviso is false: store 0..4, revert 4, revert 3 (3 is the last block
-   of window [0,3], which stays persisted because onReorg deletes the key of the empty window [4,7]);
-   after a crash the re-built filter starts at 4 and the next block (3) cannot be stored *)
-Example C05_crash_refuted :
+(* revert across a window end (store 0..4, revert 4, revert 3; 3 is the last block of the persisted
+   window [0,3]): with the fixed onReorg the revert batch deletes that window; every crash point is
+   consistent, a fresh process is ready and stores the next block 3. (Before /repo 5440575 this was
+   the refutation witness C05_crash_refuted: the window stayed persisted, the rebuilt filter started
+   at 4 and block 3 could never be stored again.) *)
+Example C05_crash_window_revert :
   let ops := chain5 ++ [Revert; Revert] in
+  ops_ok 4 ops st0 = true /\
+  forallb (fun k => let d := fst (exec_crash 4 ops k st0) in consistent 4 d && recover_ready 4 d && index_covers 4 d)
+          (seq 0 9) = true /\
   let d := fst (exec_crash 4 ops 7 st0) in
-  ops_ok 4 ops st0 = false /\ d_height d = Some 2 /\
-  consistent 4 d = false /\ recover_ready 4 d = false /\
-  stores 4 d (reinit 4 d) (blk 3 203 102 [9]) = false.
+  d_height d = Some 2 /\ d_windows d = [] /\ stores 4 d (reinit 4 d) (blk 3 203 102 [9]) = true.
+Proof. vm_compute. repeat split; reflexivity. Qed.
+
+(* the mem_sync clause is not decorative for the theorem as stated (arbitrary initial memory): with a
+   filter that lags behind the head, the revert of the window's last block does not take the
+   window-crossing path and the persisted window survives above the head. Such a memory state is what
+   a failed store leaves behind (fault runs), not what a crash-free run produces. *)
+Example C05_crash_sync_needed :
+  let d := fst (run 4 (firstn 4 chain5) st0) in
+  let m := {| rf_from := 0; rf_cols := []; rf_next := 3; rf_err := false |} in
+  consistent 4 d = true /\ rf_aligned 4 m = true /\ ops_ok 4 [Revert] (d, m) = false /\
+  consistent 4 (fst (exec_crash 4 [Revert] 1 (d, m))) = false.
 Proof. vm_compute. repeat split; reflexivity. Qed.
 
 (* the persisted running-filter snapshot is never invalidated: snapshot at height 2, revert, store a
@@ -105,15 +138,16 @@ Example C05_crash_index_refuted :
   index_covers 4 d = false.
 Proof. vm_compute. repeat split; reflexivity. Qed.
 
-(* the hypotheses of C05_crash are satisfiable by a non-trivial history (two windows, reverts, prune
+(* the hypotheses of C05_crash are satisfiable by a non-trivial history (three windows, reverts across
+   window ends — also right after restarts —, prune
    with a resumed second call, snapshot, restarts), and every crash point of it is consistent and
    ready to store the next block *)
 Definition chain14 : list op :=
   map (fun i => Store (blk (N.of_nat i) (100 + N.of_nat i) (if Nat.eqb i 0 then 0 else 99 + N.of_nat i) [N.of_nat i]))
       (seq 0 14).
 Definition history : list op :=
-  chain14 ++ [Revert; Revert; Store (blk 12 212 111 [5]); Snapshot; SetL1 7; Prune 3; Restart false;
-              Prune 6; Store (blk 13 213 212 [6]); Restart true; Revert].
+  chain14 ++ [Revert; Revert; Revert; Store (blk 11 211 110 [5]); Snapshot; SetL1 7; Prune 3; Restart false;
+              Prune 6; Store (blk 12 212 211 [6]); Restart true; Revert; Revert].
 
 Example C05_crash_nonvacuous :
   ops_ok 4 history st0 = true /\
